@@ -37,9 +37,12 @@ class DefWire:
 
     @property
     def wire_points(self):
-        start = [self.points[0]]
-        rest = [p for p in self.points[1:] if not isinstance(p[0], str)]  # skip over vias
-        return start + rest if len(rest) > 0 else []
+        pts = [self.points[0]]
+        for p in self.points[1:]:
+            if isinstance(p[0], str): continue  # skip over vias
+            prev = pts[-1]
+            pts.append((prev[0] if p[0] is None else p[0], prev[1] if p[1] is None else p[1]) + tuple(p[2:]))  # '*' keeps the previous value
+        return pts if len(pts) > 1 else []
 
     @property
     def vias(self):
